@@ -20,7 +20,9 @@ Definition is_pubpkt (p : pkt) : bool := match p with PPublish _ _ | PPubRel _ =
 
 (* the packet p may be written for the pending entry e, which then becomes e' *)
 Inductive allowed : rentry -> pkt -> rentry -> Prop :=
-| al_dpub m : allowed (DPublish m) (PPublish m false) (RPublish m)
+| al_dpub m : p_qos m <> 0%N -> allowed (DPublish m) (PPublish m false) (RPublish m)
+| al_dpub0 m : p_qos m = 0%N -> allowed (DPublish m) (PPublish m false) (RSubscribe (p_uid m) [])
+    (* a QoS 0 publish is finished once written: a neutral placeholder with the same identifier *)
 | al_rpub m : p_qos m <> 0%N -> allowed (RPublish m) (PPublish m true) (RPublish m)
 | al_rel1 m : allowed (RPublish m) (PPubRel (p_uid m)) (RPubRel m)
 | al_rel2 m : allowed (RPubRel m) (PPubRel (p_uid m)) (RPubRel m)
@@ -33,8 +35,10 @@ Lemma allowed_uid e p e' : allowed e p e' -> entry_uid e' = entry_uid e /\ wire_
 Proof. intros H; inversion H; subst; split; reflexivity. Qed.
 Lemma allowed_raw e p e' : allowed e p e' -> is_raw e' = true.
 Proof. intros H; inversion H; reflexivity. Qed.
-Lemma allowed_pub_of e p e' : allowed e p e' -> pub_of e' = pub_of e.
-Proof. intros H; inversion H; reflexivity. Qed.
+Lemma allowed_pub_of e p e' m : allowed e p e' -> pub_of e' = Some m -> pub_of e = Some m.
+Proof. intros H; inversion H; subst; cbn; auto; discriminate. Qed.
+Lemma allowed_rpublish e p m : allowed e p (RPublish m) -> p_qos m <> 0%N.
+Proof. intros H; inversion H; subst; auto. Qed.
 Lemma allowed_pubpkt e p e' : allowed e p e' -> is_pubpkt p = true -> exists m, pub_of e = Some m /\ wire_uid p = p_uid m.
 Proof. intros H; inversion H; subst; cbn; intros Q; try discriminate; eauto. Qed.
 Lemma allowed_publish e m d e' : allowed e (PPublish m d) e' -> pub_of e = Some m.
@@ -229,7 +233,7 @@ Proof.
   - rewrite (euids_same_mid _ _ _ _ U1). exact kb_inc0.
   - intros x Hx. destruct (Hin x Hx) as [->|H]; [rewrite U1|]; auto.
   - intros x m Hx Hm. destruct (Hin x Hx) as [->|H]; [|eauto].
-    rewrite (allowed_pub_of _ _ _ Al) in Hm. eauto.
+    apply (allowed_pub_of _ _ _ _ Al) in Hm. eauto.
   - intros j q r0. rewrite sp_wire0, in_app_iff. intros [H|[H|[]]]; [eauto|].
     inversion H; subst. rewrite U2. auto.
   - intros j m d r0. rewrite sp_wire0, in_app_iff. intros [H|[H|[]]]; [eauto|].
